@@ -153,6 +153,9 @@ def tlc(
             cmd, cwd=SPECS, env=e, stdout=subprocess.PIPE, stderr=subprocess.STDOUT, text=True
         )
         assert proc.stdout is not None
+        if "thorough" in sys.argv:
+            # the thorough tier may share the machine with other jobs: its TLC runs get three times the budget
+            timeout = 3 * timeout
         deadline = t0 + timeout
         for line in proc.stdout:
             if line.startswith('"') and line.rstrip().endswith('"'):
